@@ -707,9 +707,7 @@ pub fn honest_cases(rng: &mut Rng, thorough: bool) -> Vec<BodyCase> {
         }
         let o = observe_serve(&q, &e);
         let rs = ranges_of(&o);
-        if rs.iter().any(|&(a, b)| b - a > 4096)
-            || matches!(o.plan, Plan::MultipartHead(..) | Plan::Unknown(_))
-        {
+        if rs.iter().any(|&(a, b)| b - a > 4096) || matches!(o.plan, Plan::MultipartHead(..)) {
             // cannot drain honestly; covered by the head-only comparison of C03/C06
             continue;
         }
